@@ -330,8 +330,11 @@ int op_conn(int id, int n, char **t) {
         printf("rc=%d ev=[%s]", (int) cp->in_status, h->ev ? h->ev : "");
         return 1;
     }
-    if (!strcmp(t[0], "play") && n == 2) {
-        /* the hand-over discipline of test/test.c (made total), see lean/Driver/Conn.lean playStep */
+    if ((!strcmp(t[0], "play") || !strcmp(t[0], "pump")) && n == 2) {
+        /* play: the hand-over discipline of test/test.c (made total), see lean/Driver/Conn.lean playStep.
+         * pump: the same feeding, then the documented hand-over protocol (docs/QUICK_START 2.2): keep alternating between the
+         * directions that hold back data until nothing is held or a whole round consumes nothing (stall) */
+        int pump = !strcmp(t[0], "pump");
         unsigned char *in_other = NULL, *out_other = NULL; size_t in_len = 0, out_len = 0;
         int first = 1;
         char *save = NULL;
@@ -371,6 +374,19 @@ int op_conn(int id, int n, char **t) {
                 if (in_other) { unsigned char *hd = in_other; size_t hl = in_len; in_other = NULL; in_len = 0; CALL(1, hd, hl); free(hd); }
             }
             free(a);
+        }
+        if (pump) {
+            int stall = 0;
+            for (int round = 0; round < 16 && (in_other || out_other); round++) {
+                long bi = in_other ? (long) in_len : -1, bo = out_other ? (long) out_len : -1;
+                if (out_other) { unsigned char *hd = out_other; size_t hl = out_len; out_other = NULL; out_len = 0; CALL(0, hd, hl); free(hd); }
+                if (in_other) { unsigned char *hd = in_other; size_t hl = in_len; in_other = NULL; in_len = 0; CALL(1, hd, hl); free(hd); }
+                long ai = in_other ? (long) in_len : -1, ao = out_other ? (long) out_len : -1;
+                if (ai == bi && ao == bo) { stall = 1; break; }
+            }
+            printf("%send:in=%ld:out=%ld:stall=%d", first ? "" : " ;; ", in_other ? (long) in_len : -1, out_other ? (long) out_len : -1, stall);
+            free(in_other); free(out_other);
+            return 1;
         }
         if (out_other) { unsigned char *hd = out_other; size_t hl = out_len; out_other = NULL; out_len = 0; CALL(0, hd, hl); free(hd); }
         if (in_other) { unsigned char *hd = in_other; size_t hl = in_len; in_other = NULL; in_len = 0; CALL(1, hd, hl); free(hd); }
